@@ -65,6 +65,9 @@ func marshalSorted(m map[string]json.RawMessage) []byte {
 // resign rebuilds the signed transaction around a changed raw transaction, signed by the
 // accounts that signed the original.
 func (g *Genesis) resign(bt *Built, raw action.RawTx) []byte {
+	if raw.Type == action.OLVM && bt.Type == action.OLVM {
+		return g.resignOLVM(bt, raw)
+	}
 	orig := decodeSigned(bt.Bytes)
 	st := action.SignedTx{RawTx: raw}
 	rb := raw.RawBytes()
